@@ -2,6 +2,7 @@ import Exetera.Props.C08
 import Exetera.Lemmas.GenKernelsSpans
 import Exetera.Lemmas.GenKernelsSpansMinMax
 import Exetera.Lemmas.GenKernelsSpansIndex
+import Exetera.Lemmas.GenKernelsSpansMerge
 /-!
   C08 over the TRANSLATED kernels.  `Gen/Kernels.lean` is regenerated from exetera/core/operations.py by
   tools/translate_njit.py on every run; the theorems below are therefore re-checked against what the source says NOW.
@@ -131,5 +132,36 @@ theorem gen_apply_spans_index_of_max_eq (sp : List Nat) (src : List Int) (h : We
 
 example : apply_spans_index_of_min.run [0, 2, 5] [3, 1, 4, 1, 1] none = .ok [1, 3] ∧
     apply_spans_index_of_max.run [0, 2, 5] [3, 3, 4, 5, 5] none = .ok [0, 3] := ⟨rfl, rfl⟩
+
+
+/-! ## _get_spans_for_2_fields_by_spans -/
+
+/-- for every fuel ≥ len(span1) the translated merge kernel and the model agree (same array / same error class) -/
+theorem gen_get_spans_by_spans_refines (s0 s1 : List Nat) (fuel : Nat) (hf : s1.length ≤ fuel) :
+    Sim (_get_spans_for_2_fields_by_spans.run (ints s0) (ints s1) fuel) ((getSpansFor2FieldsBySpans s0 s1).map ints) :=
+  get_spans_for_2_fields_by_spans_refines s0 s1 fuel hf
+
+/-- the translated kernel merges the span arrays of two equal-length columns, in bounds and within `len(span1)`
+    iterations of its inner loop per call, into the span array of the zipped column -/
+theorem gen_get_spans_by_spans_eq_spec {α β} [BEq α] [BEq β] (a : List α) (b : List β) (hl : a.length = b.length)
+    (fuel : Nat) (hf : (getSpansForField neq b).length ≤ fuel) :
+    _get_spans_for_2_fields_by_spans.run (ints (getSpansForField neq a)) (ints (getSpansForField neq b)) fuel
+      = .ok (ints (spans neq (a.zip b))) := by
+  have h := get_spans_for_2_fields_by_spans_refines (getSpansForField neq a) (getSpansForField neq b) fuel hf
+  rw [C08.get_spans_by_spans_eq_spec a b hl] at h
+  exact h.ok_right rfl
+
+/-- any two well-formed span arrays over the same row count: the translated kernel returns their sorted union -/
+theorem gen_merge_spans_eq_union (s0 s1 : List Nat) (n : Nat) (h0 : Wellformed s0 n) (h1 : Wellformed s1 n)
+    (fuel : Nat) (hf : s1.length ≤ fuel) :
+    ∃ m, _get_spans_for_2_fields_by_spans.run (ints s0) (ints s1) fuel = .ok (ints m) ∧ Wellformed m n ∧
+      ∀ z, z ∈ m ↔ z ∈ s0 ∨ z ∈ s1 := by
+  obtain ⟨m, hm, hw, hmem⟩ := C08.merge_spans_eq_union s0 s1 n h0 h1
+  have h := get_spans_for_2_fields_by_spans_refines s0 s1 fuel hf
+  rw [hm] at h
+  exact ⟨m, h.ok_right rfl, hw, hmem⟩
+
+example : _get_spans_for_2_fields_by_spans.run [0, 2, 5] [0, 1, 2, 4, 5] 5 = .ok [0, 1, 2, 4, 5] := rfl
+example : Wellformed [0, 2, 5] 5 ∧ Wellformed [0, 1, 2, 4, 5] 5 := ⟨⟨by decide, rfl, rfl⟩, ⟨by decide, rfl, rfl⟩⟩
 
 end Exetera.Props.C08Gen
